@@ -82,7 +82,8 @@ def half_points(m):
         out.append(c[i])
         out.append((c[i] + c[i + 1]) / 2)
     out.append(c[m.G])
-    return out
+    # (a one-ulp cell has no interior point: its "midpoint" is one of its ends)
+    return sorted(set(out))
 
 
 def migration_rows(m, layout):
@@ -950,6 +951,9 @@ def plan(tier):
         add("iv", dict(N=3, G=3, times="id", flags=AS), [V("known", 0, 1, combos=TWO_COMBOS)], 6)
         add("iv", dict(N=3, G=2, times="weak", flags=AS, grid="frac", timescale="quarter"),
             [V("known", 2, 1, combos=TWO_COMBOS)], 24)
+        # a retained / deleted region exactly one ulp wide
+        add("iv", dict(N=2, G=3, times="id", flags=AS, grid="ulp"), [V("known", 0, 1)], 2)
+        add("iv", dict(N=3, G=3, times="id", flags=AS, grid="ulp"), [V("unknown", 0, 0, combos=TWO_COMBOS)], 6)
         # ---- ivs ----
         for n in (1, 2, 3):
             add("ivs", dict(N=n, G=2, times="id"), [V("known", 1)], 12)
